@@ -72,6 +72,7 @@ type checkRun struct {
 	defAns  *AnsSpec
 	dirs    map[string]*Directive
 	expect  string
+	r       int // replica that serves the check
 }
 
 type browser struct {
@@ -85,6 +86,7 @@ type env struct {
 	cfgFile *internal.LocalConfigFile
 	cfg     *configv1.Config
 	filter  *server.ExtAuthZFilter
+	replicas []*server.ExtAuthZFilter // replicas[0] == filter
 	factory *spyFactory
 	mr      map[string]*miniredis.Miniredis
 	cancel  context.CancelFunc
@@ -542,6 +544,19 @@ func (d *driver) setup(spec CfgSpec) error {
 		}
 	}
 	e.filter = server.NewExtAuthZFilter(e.cfg, tlsPool, &spyJWKS{d: d, real: jw}, e.factory)
+	e.replicas = []*server.ExtAuthZFilter{e.filter}
+	for i := 1; i < spec.Replicas; i++ {
+		// a further instance of the service with the same configuration: its own stores (over the same Redis), its own key provider
+		fac2 := oidc.NewSessionStoreFactory(e.cfg)
+		if err := fac2.PreRun(); err != nil {
+			cancel()
+			return err
+		}
+		jw2 := oidc.NewJWKSProvider(e.cfg, tlsPool)
+		go func() { _ = jw2.ServeContext(ctx) }()
+		sf := &spyFactory{d: d, real: fac2, spies: map[oidc.SessionStore]*spyStore{}, tag: fmt.Sprintf("r%d", i)}
+		e.replicas = append(e.replicas, server.NewExtAuthZFilter(e.cfg, tlsPool, &spyJWKS{d: d, real: jw2}, sf))
+	}
 	d.env = e
 	return nil
 }
@@ -702,7 +717,7 @@ func (d *driver) start(st *Step) *checkRun {
 		if d.checkFn != nil {
 			c.resp, c.err = d.checkFn(context.Background(), req)
 		} else {
-			c.resp, c.err = e.filter.Check(context.Background(), req)
+			c.resp, c.err = e.replicas[c.r%len(e.replicas)].Check(context.Background(), req)
 		}
 	}()
 	d.wait(c)
@@ -720,7 +735,7 @@ func (d *driver) prepare(st *Step) (*checkRun, *envoy.CheckRequest) {
 	}
 	br := d.browser(st.B)
 	d.nChecks++
-	c := &checkRun{id: st.C, n: d.nChecks, f: f.Name, b: st.B, done: make(chan struct{}), defAns: st.Ans, dirs: st.Dirs, expect: st.Expect}
+	c := &checkRun{id: st.C, n: d.nChecks, f: f.Name, b: st.B, done: make(chan struct{}), defAns: st.Ans, dirs: st.Dirs, expect: st.Expect, r: max(st.R, 0)}
 	if c.id == "" {
 		c.id = fmt.Sprintf("k%d", c.n)
 	}
